@@ -12,7 +12,7 @@ for id in "$@"; do
   out=$(cd /verif && ./check "$id" --tier "$tier" 2>&1)
   code=$?
   echo "$id exit=$code"
-  echo "$out" | grep -E "^VIOLATION|^  clause=|MACHINERY" | head -6 | cut -c1-400
+  echo "$out" | grep -a -E "^VIOLATION|^  clause=|MACHINERY" | head -6 | cut -c1-400
 done
 git -C /repo reset -q --hard HEAD
 git -C /repo status --short | grep -v '^??' | head -3
